@@ -29,6 +29,9 @@ def run(ctx):
                "(base, exponent) table loses no component (a coefficient factor "
                "is base**exponent, a term factor keeps base -> exponent); map_sum "
                "adds up the coefficients of equal terms and rebuilds every entry")
+    ctx.decide("DistributeMapper handlers: a node is never iterated (nodes are "
+               "not iterable), and a class test that guards the use of a mapped "
+               "child is made on the mapped child, not on the original")
     ctx.decline("value preservation and normal forms of DistributeMapper and of "
                 "term collection beyond that bookkeeping (search over term "
                 "multisets)")
@@ -40,6 +43,7 @@ def run(ctx):
     _fold(ctx, model)
     _folders(ctx, model)
     _term_collector(ctx, model)
+    _distribute(ctx, model)
 
 
 def _item_cond(v, what, cls=None):
@@ -310,6 +314,24 @@ def _fold(ctx, model):
             shapes.add("nonconstants-only")
         else:
             shapes.add("other")
+    # which of the two shapes is built depends only on whether there *are*
+    # constants, never on the value they fold to (zero is neutral for a sum but
+    # absorbing for a product, and fold() serves both)
+    dep = False
+    for ps in pss:
+        if ps.term != "return":
+            continue
+        for _, pol, v in ps.conds:
+            if isinstance(v, tuple) and contains(
+                    v, lambda t: t[0] == "call" and isinstance(t[1], str)
+                    and t[1].split(".")[-1] == "reduce"):
+                dep = True
+    ctx.ob("P/fold/result-independent-of-constant-value", not dep, loc,
+           "the folded constant is carried whatever its value" if not dep else
+           "fold() decides from the *value* of the folded constant whether to "
+           "keep it: a constant that folds to 0 is dropped, which is right for a "
+           "sum but turns x*(3 + -3)*y into x*y (the same function folds "
+           "products)")
     ok = shapes == {"constant-first", "nonconstants-only"}
     ctx.ob("P/fold/result", ok, loc,
            "result = constructor(one folded constant, *non-constants) or "
@@ -401,6 +423,72 @@ def _folders(ctx, model):
                "uncached CSE handler is the identity traversal's" if ok else
                f"{c.name}.map_common_subexpression_uncached is not "
                "IdentityMapper.map_common_subexpression")
+
+
+def _distribute(ctx, model):
+    from ..rules import handler_summaries, mapper_node_pairs
+    dm = model.cls("pymbolic.mapper.distributor:DistributeMapper")
+    # the fact the first rule rests on, read from the source
+    ex = model.cls("pymbolic.primitives:Expression")
+    it = ex.members.get("__iter__")
+    always = it is not None and it.kind == "func" and all(
+        ps.term == "raise" for ps in summarize(it.node, node_param=False))
+    if not always:
+        raise AnalysisError("Expression.__iter__ no longer always raises: the "
+                            "'nodes are not iterable' rule has lost its premise")
+    node_classes = {n.name for n in model.nodes.all()}
+    n_handlers = 0
+    for n, res, chain, mem in mapper_node_pairs(model, dm):
+        if mem is None or mem.kind != "func" or mem.owner is not dm:
+            continue
+        n_handlers += 1
+        tag = f"{dm.name}/{mem.node.name}/{n.name}"
+        iter_bad = []
+        shape_bad = []
+        for ps in handler_summaries(model, n, mem.node, loop_mode="1"):
+            vals = [ps.retval] if ps.retval is not None else []
+            for e in ps.events:
+                vals.extend(a for a in e.args if isinstance(a, tuple))
+
+            def node_iter(t):
+                return t[0] == "seq" and len(t) > 3 and isinstance(t[3], tuple) \
+                    and t[3] and (t[3][0] == "rec" or t[3] == NODE)
+            for v in vals:
+                if contains(v, node_iter):
+                    iter_bad.append(v)
+            if ps.term != "return":
+                continue
+            # fields whose mapped value is used on this path
+            used = set()
+
+            def note(t):
+                if t[0] == "rec" and isinstance(t[1], tuple) and \
+                        t[1][0] == "field":
+                    used.add(t[1][1])
+                return False
+            contains(ps.retval, note)
+            for _, pol, c in ps.conds:
+                if pol and isinstance(c, tuple) and c[0] == "call" and \
+                        c[1] == "isinstance" and c[2][0][0] == "field" and \
+                        c[2][0][1] in used and c[2][1][0] == "global" and \
+                        c[2][1][1] in node_classes:
+                    shape_bad.append((c[2][0][1], c[2][1][1]))
+        ctx.ob(f"X2/{tag}/no-node-iteration", not iter_bad, where(mem),
+               "no node is iterated" if not iter_bad else
+               f"{dm.name}.{mem.node.name} iterates over a node (the mapped "
+               "child itself, not its .children): Expression.__iter__ raises "
+               "TypeError, so every input that reaches this path fails "
+               "(e.g. expand((x*y)**2))")
+        ctx.ob(f"P/{tag}/shape-test-on-mapped-child", not shape_bad, where(mem),
+               "class tests that guard the use of a mapped child look at the "
+               "mapped child" if not shape_bad else
+               f"{dm.name}.{mem.node.name} tests the class of the original child "
+               f"({', '.join(f'expr.{f} is a {c}' for f, c in shape_bad)}) and "
+               "then works with the *mapped* child: distribution may already "
+               "have turned it into another class (a power of a power of a sum "
+               "expands to a sum only after mapping), so the test misses it or "
+               "admits the wrong class")
+    ctx.floor("DistributeMapper handlers", n_handlers, 4)
 
 
 def _has(v, tag):
